@@ -248,14 +248,18 @@ structure VState where
   base : Option Tip
 deriving DecidableEq, Repr
 
+/-- `base != nil && !base.Equal(cert.ECChain.Base())` -/
+def baseMismatch (base : Option Tip) (chain : List Tip) : Bool :=
+  match base with
+  | some b => !(match chain.head? with | some h => Tip.eq b h | none => false)
+  | none => false
+
 /-- one iteration of the loop of `ValidateFinalityCertificates` -/
 def stepCert (net : Nat) (s : VState) (c : Cert) : Except VErr VState :=
   if c.inst != s.next then .error .instance
   else if !chainValid c.chain then .error .badChain
   else if c.chain.isEmpty then .error .emptyChain
-  else if (match s.base with
-      | some b => !(match c.chain.head? with | some h => Tip.eq b h | none => false)
-      | none => false) then .error .baseMismatch
+  else if baseMismatch s.base c.chain then .error .baseMismatch
   else match verifySig net s.table c with
     | .error e => .error e
     | .ok _ =>
@@ -299,9 +303,7 @@ def certValidB (net : Nat) (t : Table) (next : Nat) (base : Option Tip) (c : Cer
     Bool :=
   c.inst == next &&
   chainValid c.chain && !c.chain.isEmpty &&
-  (match base with
-    | some b => (match c.chain.head? with | some h => Tip.eq b h | none => false)
-    | none => true) &&
+  !(baseMismatch base c.chain) &&
   (match Power.scaled (t.map (·.power)), c.signers with
     | some (sc, tot), some ss =>
       ss.all (fun i => decide (i < t.length) && decide (0 < sc.getD i 0)) &&
